@@ -22,11 +22,14 @@ DEPTH = {"quick": dict(check=5, emit=3, wcheck=4, wemit=2), "thorough": dict(che
 
 
 def cfg_text(pl, depth, emit, invariants, napps=1, warm=False):
+    """warm: False (cold start), True (admitted to a ring, ActiveIdle) or "held" (admitted and just handed the token).
+    Application requests go to the predecessor's address, so that telegrams *from the addressed station* (tokens,
+    requests, replies) are in the alphabet while a reply is outstanding."""
     p = PLACEMENTS[pl]
     lines = ["SPECIFICATION Spec",
-             "CONSTANTS TS = %d HSA = %d G = %d NApps = %d Others = %s AppTargets = {9}" % (p["TS"], p["HSA"], p["G"], napps, p["Others"]),
+             "CONSTANTS TS = %d HSA = %d G = %d NApps = %d Others = %s AppTargets = {%d}" % (p["TS"], p["HSA"], p["G"], napps, p["Others"], p["PS"]),
              "  MaxDepth = %d WithPartial = FALSE Emit = \"%s\"" % (depth, emit),
-             "  Warm = %s WarmPS = %d WarmNS = %d" % ("TRUE" if warm else "FALSE", p["PS"], p["NS"]),
+             "  Warm = %s Held = %s WarmPS = %d WarmNS = %d" % ("TRUE" if warm else "FALSE", "TRUE" if warm == "held" else "FALSE", p["PS"], p["NS"]),
              "  " + " ".join("%s = %s" % kv for kv in sorted(FIX.items()))]
     lines += ["INVARIANT " + i for i in invariants]
     lines += ["VIEW View", "CONSTRAINT BufBound", "CHECK_DEADLOCK FALSE"]
@@ -41,11 +44,15 @@ def write_cfg(name, text):
     return path
 
 
+def _sfx(warm):
+    return "_held" if warm == "held" else "_warm" if warm else ""
+
+
 _SCHED = re.compile(r'^<<"SCHED", "(.*)">>\s*$', re.M)
 
 
 def model_check(rep, pl, tier, workers=8, warm=False):
-    cfg = write_cfg("MC_FdlSingle_%s_%s%s.cfg" % (pl, tier, "_warm" if warm else ""),
+    cfg = write_cfg("MC_FdlSingle_%s_%s%s.cfg" % (pl, tier, _sfx(warm)),
                     cfg_text(pl, DEPTH[tier]["wcheck" if warm else "check"], "none", ["NoPanic", "RulesOk", "TypeOk", "WarmOk"], warm=warm))
     r = core.tlc_model("MC_FdlSingle", cfg, workers=workers, timeout=3000)
     rep.add_model(r)
@@ -64,12 +71,12 @@ def model_check(rep, pl, tier, workers=8, warm=False):
 def emit_schedules(rep, pl, tier, warm=False):
     """State cover: one shortest schedule per reachable model state (no invariants: schedules that
     drive the model into a panic are wanted too)."""
-    cfg = write_cfg("MC_FdlSingle_%s_%s%s_emit.cfg" % (pl, tier, "_warm" if warm else ""),
+    cfg = write_cfg("MC_FdlSingle_%s_%s%s_emit.cfg" % (pl, tier, _sfx(warm)),
                     cfg_text(pl, DEPTH[tier]["wemit" if warm else "emit"], "state", ["EmitState"], warm=warm))
     r = core.tlc_model("MC_FdlSingle", cfg, workers=1, timeout=3000)
     rep.add_model(r)
     p = PLACEMENTS[pl]
-    out = os.path.join(core.workdir("single", tier), "sched_%s%s.ndjson" % (pl, "_warm" if warm else ""))
+    out = os.path.join(core.workdir("single", tier), "sched_%s%s.ndjson" % (pl, _sfx(warm)))
     n = 0
     seen = set()
     with open(out, "w") as fh:
@@ -103,13 +110,13 @@ def single_results(tier):
     jobs = []
     nsched = 0
     for pl in placements:
-        for warm in ((False, True) if (tier == "thorough" or pl == "mid") else (True,)):
+        for warm in ((False, True, "held") if (tier == "thorough" or pl == "mid") else (True,)):
             r = model_check(rep, pl, tier, warm=warm)
             models.append({k: r[k] for k in ("module", "cfg", "generated", "distinct", "ok", "timed_out", "wall_s")})
             sched, n = emit_schedules(rep, pl, tier, warm=warm)
             nsched += n
             # every schedule is followed by a quiet continuation so that what the station decided becomes visible on the wire
-            jobs.append((["single", "--sched", sched, "--quiet", 3], os.path.join(d, "replay_%s%s.ndjson" % (pl, "_warm" if warm else "")), "replay"))
+            jobs.append((["single", "--sched", sched, "--quiet", 3], os.path.join(d, "replay_%s%s.ndjson" % (pl, _sfx(warm))), "replay"))
     # random deep walks over the same alphabet (beyond the exhaustive depth, other placements, 0..2 apps)
     nr = 6 if tier == "quick" else 40
     for k in range(nr):
